@@ -1264,7 +1264,7 @@ def border_plan(tier, seed):
 
     if tier == "quick":
         return [
-            (2, False, [f"all-cycle3@{plain}", f"collinear-one-reopen@{plain}", f"collinear-cycle3@{merged(seed + 1)}"] + [f"collinear-one@{grown(seed + i)}" for i in range(3)]),
+            (2, False, [f"all-one@{plain}", f"collinear-one-reopen@{plain}", f"collinear-cycle3@{merged(seed + 1)}"] + [f"collinear-one@{grown(seed + i)}" for i in range(3)]),
             (1, True, [f"all-one@{grown(seed + i)}" for i in range(3)]),
             (2, True, [f"collinear-cycle3@{plain}", f"collinear-one@{merged(seed)}", f"redraw@{plain}", f"redraw@{merged(seed)}",
                        f"redraw-rs@{plain}", f"two-tables@{two}"]),
@@ -1342,7 +1342,7 @@ def main():
               sum(v for k, v in oc.items() if k.startswith("seq:s+s:")) >= 1000 and sum(v for k, v in oc.items() if k.startswith("seq:s+rs:")) >= 500
               and sum(v for k, v in oc.items() if k.endswith("@t1")) >= 400)
     run.floor("strokes on tables grown in this session were explored", any("@g:" in i for pl in run.extra.get("plan", []) for i in pl["inits"]))
-    run.floor(">= 15000 stroke transitions and >= 1000 save/reopen probes", run.counters["transitions"] >= 15000 and run.counters["probes"] >= 1000)
+    run.floor(">= 10000 stroke transitions and >= 1000 save/reopen probes", run.counters["transitions"] >= 10000 and run.counters["probes"] >= 1000)
     run.assume("border looks are three representatives (solid 2.0 red; dashes and dots of equal width 0.35 and colour); widths needing more than 2 decimals, the 'none' pattern, tables other than 3x3, "
                "more than one merged rectangle and histories longer than the depth bound are not explored")
     run.assume("style values outside the enumerated domains (other sizes/indents, the 16.7 million colours not on the lattice, gradients, which cannot be written) are represented, not enumerated; "
